@@ -1,5 +1,5 @@
 From Coq Require Import NArith List Bool Arith.
-From LTV.C03 Require Import ParamsGen Model Proofs ProofsA ProofsB ProofsC ProofsD ProofsE ProofsF ProofsG ProofsH ProofsI.
+From LTV.C03 Require Import ParamsGen Model Proofs ProofsA ProofsB ProofsC ProofsD ProofsE ProofsF ProofsG ProofsH ProofsI ProofsJ ProofsK.
 Import ListNotations.
 
 Theorem params_ok_now : params_ok = true.
@@ -201,15 +201,14 @@ Theorem meta_machine_segmentation_independent :
 Proof. exact ProofsH.meta_machine_segmentation_independent. Qed.
 Print Assumptions meta_machine_segmentation_independent.
 
-(* The extension "waiting for a write" pause (feedb / evb / wready / runB in Model.v; commits 6c29d69,
-   1b429d0, c72865a).  PARTIAL: proved is that the pausing decoder coincides with the proved decoder
-   whenever no completed extension message generates a reply (nothing ever waits, the pending flag is
-   untouched), so all decoder theorems transfer to it in that case.  MISSING: the refinement of runB
-   over arbitrary interleavings of segments and write-ready events ("state and effects = decode of
-   the consumed prefix, the rest unread; everything consumed after a final write-ready event"); it
-   needs the compositionality proof redone for a decoder that can stop in mode RPay KExt 0 with a
-   buffer rest.  That behaviour is tied to the code by the correspondence only (cases with xr= and
-   `w` events, plain and encrypted, every PeerConnection<> role). *)
+(* The extension "waiting for a write" pause (feedb / evb / drainb / wready / runB / run_b in Model.v;
+   commits 6c29d69, 1b429d0, c72865a).
+   machine_write_events_partial (kept: it is not implied by the full theorems below, it holds for
+   EVERY fuel): the pausing decoder coincides with the proved decoder whenever no completed
+   extension message generates a reply.  What this comment used to list as MISSING -- the refinement
+   of run_b over arbitrary interleavings of segments and write-ready events for ARBITRARY reply
+   oracles -- is now proved: wait_decoder_refines, write_ready_progress, machine_write_events,
+   machine_write_events_decode. *)
 Theorem machine_write_events_partial :
   forall (HS : Type) (handle : HS -> msg -> HS * verdict) (rl : role) (pol : policy) (reply : HS -> bool),
   (forall h, reply h = false) ->
@@ -217,3 +216,77 @@ Theorem machine_write_events_partial :
   feedb HS handle rl pol reply f h pend m l = lift HS pend (feed HS handle rl pol f h m l).
 Proof. exact ProofsI.feedb_no_reply. Qed.
 Print Assumptions machine_write_events_partial.
+
+(* the pausing decoder, any reply oracle: total (no PBFault, no PBOut); what it dispatched followed by
+   the decode from where it stopped (the kept buffer rest ++ whatever follows) is the decode of
+   everything; if it does not end waiting it IS `feed`; if it ends waiting, the mode is RPay KExt 0,
+   a reply is pending and the waiting message is one that generates a reply *)
+Theorem wait_decoder_refines :
+  forall (HS : Type) (handle : HS -> msg -> HS * verdict) (rl : role) (pol : policy) (reply : HS -> bool)
+         (f : nat) (h : HS) (pend : bool) (m : rmode) (l : list N),
+  (mu m l < f)%nat ->
+  exists h1 p1 w1 m1 b1 es1,
+    feedb HS handle rl pol reply f h pend m l = PB HS h1 p1 w1 m1 b1 es1 /\
+    (forall y, feedx HS handle rl pol h m (l ++ y) = papp HS es1 (feedx HS handle rl pol h1 m1 (b1 ++ y))) /\
+    (if w1 then m1 = RPay KExt 0%N /\ p1 = true /\ reply h1 = true /\ (length b1 <= length l)%nat
+     else feed HS handle rl pol f h m l = PRes h1 m1 b1 es1).
+Proof. exact ProofsJ.feedb_refines. Qed.
+Print Assumptions wait_decoder_refines.
+
+(* once the pending reply has been written, the waiting message is dispatched at once *)
+Theorem write_ready_progress :
+  forall (HS : Type) (handle : HS -> msg -> HS * verdict) (rl : role) (pol : policy) (reply : HS -> bool)
+         (f : nat) (h : HS) (b : list N),
+  feedb HS handle rl pol reply (S f) h false (RPay KExt 0%N) b =
+  let (h', v) := handle h MExtDone in
+  match v with
+  | VCont => pbcons HS (EMsg MExtDone) (feedb HS handle rl pol reply f h' (reply h) RIdle b)
+  | VClose => PB HS h' (reply h) false RClosed [] [EMsg MExtDone; EClose RHandler]
+  | VFatal => PB HS h' (reply h) false RClosed [] [EMsg MExtDone; EFatal]
+  end.
+Proof. exact ProofsJ.feedb_resume. Qed.
+Print Assumptions write_ready_progress.
+
+(* THE MACHINE with the pause (full version of machine_write_events_partial).  For every handler,
+   reply oracle, role, recv budget oracle, fill-target oracle, handed-over prefix (< 512 bytes) and
+   EVERY interleaving of TCP segments and write-ready events: the run ends normally -- no BFault (no
+   write past the 512-byte buffer), no BOut (every loop terminates within the fuel the model gives
+   it) --; the effects emitted followed by the decode from the state reached over
+   buffer ++ unread socket ++ (whatever follows) are the decode of the whole stream (nothing lost,
+   duplicated or reordered by waiting); a waiting message is an extension message with nothing left
+   to read (mode RPay KExt 0); if nothing waits the state is settled and the socket read empty. *)
+Theorem machine_write_events :
+  forall (HS : Type) (handle : HS -> msg -> HS * verdict) (rl : role) (pol : policy) (budget : nat -> nat) (short : nat -> bool)
+         (reply : HS -> bool) (h : HS) (pre : list N) (evs : list bevent),
+  (length pre < bufsz)%nat ->
+  exists s' p' w' sock' es,
+    run_b HS handle rl pol budget short reply h pre evs = BRet s' p' w' sock' es /\
+    (if w' then m_mode s' = RPay KExt 0%N else good HS handle rl pol s' /\ sock' = []) /\
+    (forall y, feedx HS handle rl pol h RIdle (pre ++ wbytes evs ++ y) =
+               papp HS es (feedx HS handle rl pol (m_h s') (m_mode s') (m_buf s' ++ sock' ++ y))).
+Proof. exact ProofsK.machine_write_events. Qed.
+Print Assumptions machine_write_events.
+
+(* ... and after a final write-ready event (the write side has caught up) nothing waits, no reply
+   is pending, the socket is empty, and handler state / mode / unread rest / effects are exactly
+   those of decoding the whole stream at once *)
+Theorem machine_write_events_decode :
+  forall (HS : Type) (handle : HS -> msg -> HS * verdict) (rl : role) (pol : policy) (budget : nat -> nat) (short : nat -> bool)
+         (reply : HS -> bool) (h : HS) (pre : list N) (evs : list bevent),
+  (length pre < bufsz)%nat ->
+  exists s' es,
+    run_b HS handle rl pol budget short reply h pre (evs ++ [BWrite]) = BRet s' false false [] es /\
+    decode HS handle rl pol h (pre ++ wbytes evs) = PRes (m_h s') (m_mode s') (m_buf s') es.
+Proof. exact ProofsK.machine_write_events_decode. Qed.
+Print Assumptions machine_write_events_decode.
+
+(* no_fatal_real_machine for the machine with the pause: the concrete handler hreal with its reply
+   oracle, ALL configurations, budgets, handed-over prefixes and interleavings of segments and
+   write-ready events: the run ends normally and no internal_error effect is emitted *)
+Theorem no_fatal_real_write_machine : forall (c : cfg) (budget : nat -> nat) (short : nat -> bool) (h0 : hst)
+  (pre : list N) (evs : list bevent),
+  (length pre < bufsz)%nat ->
+  exists s' p' w' sock' es,
+    run_b_real c budget short h0 pre evs = BRet s' p' w' sock' es /\ ~ In EFatal es.
+Proof. exact ProofsK.no_fatal_real_write_machine. Qed.
+Print Assumptions no_fatal_real_write_machine.
